@@ -63,8 +63,21 @@ Definition n_amts (n : node) := match n with Node _ _ _ a _ => a end.
 Definition n_children (n : node) := match n with Node _ _ _ _ c => c end.
 
 (* GetOrCreate(segments) + Amounts.Add at the node reached.  Children are kept in name order
-   (Go keeps them in a map; every traversal that matters sorts them first). *)
-Fixpoint node_insert (fuel : nat) (n : node) (prefix : account) (rest : list str) (k : rkey) (v : dec) : node :=
+   (Go keeps them in a map; every traversal that matters sorts them first).
+   [children_insert rec h ...] finds or creates the child with segment h and continues with
+   [rec] (the insertion one level down). *)
+Fixpoint children_insert (rec : node -> node) (h : str) (path : account) (l : list node) : list node :=
+  match l with
+  | [] => [rec (Node h path false [] [])]
+  | c :: l' =>
+    match str_cmp h (n_seg c) with
+    | Eq => rec c :: l'
+    | Lt => rec (Node h path false [] []) :: l
+    | Gt => c :: children_insert rec h path l'
+    end
+  end.
+
+Fixpoint node_insert (fuel : nat) (prefix : account) (rest : list str) (k : rkey) (v : dec) (n : node) : node :=
   match n with
   | Node s p hv a ch =>
     match rest with
@@ -72,18 +85,7 @@ Fixpoint node_insert (fuel : nat) (n : node) (prefix : account) (rest : list str
     | h :: tail =>
       match fuel with
       | O => n
-      | S f =>
-        let fix ins (l : list node) : list node :=
-          match l with
-          | [] => [node_insert f (Node h (prefix ++ [h]) false [] []) (prefix ++ [h]) tail k v]
-          | c :: l' =>
-            match str_cmp h (n_seg c) with
-            | Eq => node_insert f c (prefix ++ [h]) tail k v :: l'
-            | Lt => node_insert f (Node h (prefix ++ [h]) false [] []) (prefix ++ [h]) tail k v :: l
-            | Gt => c :: ins l'
-            end
-          end in
-        Node s p hv a (ins ch)
+      | S f => Node s p hv a (children_insert (node_insert f (prefix ++ [h]) tail k v) h (prefix ++ [h]) ch)
       end
     end
   end.
@@ -95,8 +97,8 @@ Definition new_report : report := mkReport empty_root empty_root.
 (* Report.Insert *)
 Definition report_insert (r : report) (date : option Z) (a : account) (c : commodity) (v : dec) : report :=
   let k := (date, Some c) in
-  if is_AL a then mkReport (node_insert (S (length a)) (r_al r) [] a k v) (r_eie r)
-  else mkReport (r_al r) (node_insert (S (length a)) (r_eie r) [] a k v).
+  if is_AL a then mkReport (node_insert (S (length a)) [] a k v (r_al r)) (r_eie r)
+  else mkReport (r_al r) (node_insert (S (length a)) [] a k v (r_eie r)).
 
 (* ---------------------------------------------------------------- sorting *)
 (* weights of SortWeighted: -|sum of the node's valued amounts| + children's weights.
